@@ -158,16 +158,19 @@ def field_type_enum():
     return names
 
 
-def schema_dump(harness='codec'):
-    exe = vlib.build_harness(harness, need_schema=True)
-    rc, o = vlib.sh([exe, 'dump'], env=vlib.ENV_RUN, timeout=120)
+def schema_dump(harness='codec', which=None):
+    if which is None:
+        exe = vlib.build_harness(harness, need_schema=True)
+    else:
+        exe = vlib.build_harness(harness, need_schema=True, schema=which, extra_flags=vlib.FIX44_FLAGS)
+    rc, o = vlib.sh([exe, 'dump'], env=vlib.ENV_RUN, timeout=300)
     if rc:
         raise FactError('codec dump failed: ' + o[-500:])
     return o
 
 
-def schema_utest():
-    """the FIX42UTEST metadata as data: field table, header/trailer/message/group trait lists"""
+def _schema_tables(pfx, o, with_types):
+    """the metadata of one compiled schema as data: field table, header/trailer/message/group trait lists"""
     names = field_type_enum()
     code_kind = {}
     for n, c in names.items():
@@ -176,7 +179,6 @@ def schema_utest():
         if n not in FT_KIND:
             raise FactError('unknown FieldType %s' % n)
         code_kind[c] = FT_KIND[n]
-    o = schema_dump()
     groups = []        # list of trait lists
 
     def parse_traits(words):
@@ -204,6 +206,7 @@ def schema_utest():
             subs[tag] = len(groups) - 1
         return [(t, ft, p, fl, subs.get(t, 0)) for (t, ft, p, fl) in first_traits]
 
+    preamble = 0
     while pos[0] < len(lines):
         w = lines[pos[0]].split()
         pos[0] += 1
@@ -226,18 +229,35 @@ def schema_utest():
 
     def tl(tr):
         return '[' + ', '.join('⟨%d, %d, %d, %d, %d⟩' % t for t in tr) + ']'
-    body = 'structure RawTrait where\n  tag : Nat\n  ftype : Nat\n  pos : Nat\n  flags : Nat\n  sub : Nat\n  deriving Repr, DecidableEq\n\n'
-    body += '/-- FieldTrait::FieldType code -> value kind (0 int, 1 length, 2 char, 3 bool, 4 float, 5 string, 6 monthYear, 7 timestamp, 8 timeOnly, 9 dateOnly, 10 data, 11 other) -/\n'
-    kinds = ['int', 'length', 'char', 'bool', 'float', 'string', 'monthYear', 'timestamp', 'timeOnly', 'dateOnly', 'data', 'other']
-    body += 'def ftypeKind : List (Nat × Nat) := [%s]\n\n' % ', '.join('(%d, %d)' % (c, kinds.index(k)) for c, k in sorted(code_kind.items()))
-    body += 'def utestFieldTable : List Nat := [%s]\n\n' % ', '.join(map(str, fields))
-    body += 'def utestBeginStr : List Nat := [%s]\n\n' % ', '.join(str(b) for b in bytes.fromhex(beginstr))
-    body += 'def utestPreambleSz : Nat := %d\n\n' % preamble
-    body += 'def utestHeader : List RawTrait := %s\n\ndef utestTrailer : List RawTrait := %s\n\n' % (tl(header), tl(trailer))
-    body += 'def utestGroups : List (List RawTrait) := [\n%s]\n\n' % ',\n'.join('  ' + tl(g) for g in groups)
-    body += 'def utestMsgs : List (List Nat × List RawTrait) := [\n%s]\n' % ',\n'.join('  ([%s], %s)' % (', '.join(str(b) for b in k), tl(tr)) for k, tr in msgs)
+    body = ''
+    if with_types:
+        body = 'structure RawTrait where\n  tag : Nat\n  ftype : Nat\n  pos : Nat\n  flags : Nat\n  sub : Nat\n  deriving Repr, DecidableEq\n\n'
+        body += '/-- FieldTrait::FieldType code -> value kind (0 int, 1 length, 2 char, 3 bool, 4 float, 5 string, 6 monthYear, 7 timestamp, 8 timeOnly, 9 dateOnly, 10 data, 11 other) -/\n'
+        kinds = ['int', 'length', 'char', 'bool', 'float', 'string', 'monthYear', 'timestamp', 'timeOnly', 'dateOnly', 'data', 'other']
+        body += 'def ftypeKind : List (Nat × Nat) := [%s]\n\n' % ', '.join('(%d, %d)' % (c, kinds.index(k)) for c, k in sorted(code_kind.items()))
+    body += 'def %sFieldTable : List Nat := [%s]\n\n' % (pfx, ', '.join(map(str, fields)))
+    body += 'def %sBeginStr : List Nat := [%s]\n\n' % (pfx, ', '.join(str(b) for b in bytes.fromhex(beginstr)))
+    body += 'def %sPreambleSz : Nat := %d\n\n' % (pfx, preamble)
+    body += 'def %sHeader : List RawTrait := %s\n\ndef %sTrailer : List RawTrait := %s\n\n' % (pfx, tl(header), pfx, tl(trailer))
+    body += 'def %sGroups : List (List RawTrait) := [\n%s]\n\n' % (pfx, ',\n'.join('  ' + tl(g) for g in groups))
+    body += 'def %sMsgs : List (List Nat × List RawTrait) := [\n%s]\n' % (pfx, ',\n'.join('  ([%s], %s)' % (', '.join(str(b) for b in k), tl(tr)) for k, tr in msgs))
+    return body, dict(fields=fields, header=header, trailer=trailer, msgs=msgs, groups=groups, code_kind=code_kind, beginstr=bytes.fromhex(beginstr))
+
+
+def schema_utest():
+    """the FIX42UTEST metadata as data (Gen/SchemaUTEST.lean)"""
+    body, d = _schema_tables('utest', schema_dump(), True)
     _emit('SchemaUTEST', body)
-    return dict(fields=fields, header=header, trailer=trailer, msgs=msgs, groups=groups, code_kind=code_kind, beginstr=bytes.fromhex(beginstr))
+    return d
+
+
+def schema_fix44():
+    """the FIX44 metadata as data (Gen/SchemaFIX44.lean; two-pass f8c run on schema/FIX44.xml)"""
+    body, d = _schema_tables('fix44', schema_dump(which=vlib.FIX44), False)
+    txt = ('/- GENERATED from /repo by tools/gen_facts.py on every run. Do not edit. -/\nimport Fix8Model.Gen.SchemaUTEST\nset_option maxRecDepth 1000000\nnamespace Fix8Model.Gen\n\n' + body + '\nend Fix8Model.Gen\n')
+    with vlib.Lock('gen'):
+        vlib.write_if_changed(os.path.join(vlib.LEAN, 'Fix8Model', 'Gen', 'SchemaFIX44.lean'), txt)
+    return d
 
 
 def timer_consts():
@@ -561,7 +581,7 @@ def dtoa_consts():
           % (', '.join(tab), int(t.group(1), 0), c.group(1), a.group(1)))
 
 
-ALL = dict(dtoa_consts=dtoa_consts, reader=reader, encode_ladder=encode_ladder, sess_consts=sess_consts, mpmc=mpmc, sched=sched, logger_facts=logger_facts, xml_facts=xml_facts, timer_consts=timer_consts, schema_utest=schema_utest, consts=consts, itoa_table=itoa_table, mon_days=mon_days, tables_utest=tables_utest)
+ALL = dict(schema_fix44=schema_fix44, dtoa_consts=dtoa_consts, reader=reader, encode_ladder=encode_ladder, sess_consts=sess_consts, mpmc=mpmc, sched=sched, logger_facts=logger_facts, xml_facts=xml_facts, timer_consts=timer_consts, schema_utest=schema_utest, consts=consts, itoa_table=itoa_table, mon_days=mon_days, tables_utest=tables_utest)
 
 
 def generate(names):
